@@ -75,10 +75,17 @@ XformOK(r) ==
     IN  CASE r.kind = "empty" -> r.remp = 1
           [] r.kind = "infinite" -> r.rinf = 1
           [] OTHER ->
-             /\ \A p \in S : Wt(r, p) > 0
-             /\ \A j \in 1..3 :
-                  /\ \E c \in S : IsMinCorner(r, c, j, S) /\ ValOK(fmt, I!Dec(r.t, r.rmn[j]), Num(r, c, j), Wt(r, c))
-                  /\ \E c \in S : IsMaxCorner(r, c, j, S) /\ ValOK(fmt, I!Dec(r.t, r.rmx[j]), Num(r, c, j), Wt(r, c))
+             \* every corner has a homogeneous weight of the same sign (the image of the box is bounded); a point n / w with
+             \* w < 0 is the point (-n) / (-w), so the comparisons are made on sign-normalised pairs
+             LET sg == IF \A p \in S : Wt(r, p) > 0 THEN 1 ELSE -1
+                 N2(c, j) == sg * Num(r, c, j)
+                 W2(c) == sg * Wt(r, c)
+                 isMin(c, j) == \A q \in S : N2(c, j) * W2(q) <= N2(q, j) * W2(c)
+                 isMax(c, j) == \A q \in S : N2(c, j) * W2(q) >= N2(q, j) * W2(c)
+             IN  /\ \A p \in S : W2(p) > 0
+                 /\ \A j \in 1..3 :
+                      /\ \E c \in S : isMin(c, j) /\ ValOK(fmt, I!Dec(r.t, r.rmn[j]), N2(c, j), W2(c))
+                      /\ \E c \in S : isMax(c, j) /\ ValOK(fmt, I!Dec(r.t, r.rmx[j]), N2(c, j), W2(c))
 
 \* ---- state machine ----------------------------------------------------------
 Judge(r) ==
